@@ -61,8 +61,18 @@ def _strategy():
         st.sampled_from(["j1939-21", "j1939-22"]), st.booleans(), st.sampled_from([0x20, 0x80, 0xC8, 0xF0]), st.sampled_from([0.0, 0.001]),
         st.sampled_from([0.005, 0.01, 0.02]), st.sampled_from([0.001, 0.002, 0.004]), st.lists(send, min_size=1, max_size=3),
         st.sampled_from([0.3, 0.6]), st.lists(st.one_of(send, contend, wait), max_size=3))
+    # whole-case shape: the contender's claim arrives while the CA's INITIAL claim (an address of the immediate range) is still
+    # being written (5 ms); then every entry point is tried
+    shape_claimwrite = st.builds(
+        lambda dll, aac, addr, d, x, sends, w2, more: {
+            "dll": dll, "aac": aac, "bypass": False, "addr": addr, "dm1_tail": False, "tx_pre": 0.0, "tx_time": 0.005, "lat": [0.0005],
+            "ops": [{"op": "start", "delay": d}, {"op": "wait", "d": d + x}, {"op": "contend", "lower": True}, {"op": "wait", "d": 0.01}] +
+                   sends + [{"op": "wait", "d": w2}] + more},
+        st.sampled_from(["j1939-21", "j1939-22"]), st.booleans(), st.sampled_from([0x20, 0x7F, 0xF8, 0xFC]), st.sampled_from([0.0, 0.001, 0.1]),
+        st.sampled_from([0.0005, 0.002, 0.004]), st.lists(send, min_size=1, max_size=3),
+        st.sampled_from([0.3, 0.6]), st.lists(st.one_of(send, contend, wait), max_size=3))
     general = _general(rnd, pattern, pattern2)
-    return st.one_of(general, general, general, general, general, shape_tick, shape_dm1)
+    return st.one_of(general, general, general, general, general, general, shape_tick, shape_dm1, shape_claimwrite)
 
 
 def _general(rnd, pattern, pattern2):
@@ -89,9 +99,11 @@ class C13:
             "{1,50,100,249,251,300,600,1000 ms}, a contending claim with a lower or higher NAME for the address the CA "
             "currently announces/holds, and send attempts via send_pgn (single frame / BAM / RTS-CTS / PGN 0xEE00), "
             "send_message, send_request (any PGN, the address-claim PGN), Dm22; optionally a DM1 cycle at the end; frame writes "
-            "that wait 2/5 ms before the bus (background thread) or keep any caller 0.5/5 ms after it; two whole-case shapes in one "
-            "case of seven each: the address is lost 0.5-4 ms before a tick of the claim timer while writes take 5 ms, and the "
-            "address is lost while the data callback (5-20 ms) of a running DM1 cycle is being executed; "
+            "that wait 2/5 ms before the bus (background thread) or keep any caller 0.5/5 ms after it; three whole-case shapes in one "
+            "case of nine each: the address is lost 0.5-4 ms before a tick of the claim timer while writes take 5 ms, and the "
+            "address is lost while the data callback (5-20 ms) of a running DM1 cycle is being executed, and a contender's claim arrives "
+            "while the CA's initial claim is still being written; a loss is defined by bus order (own claim on the bus, then a lower "
+            "NAME's claim delivered), not by what the CA reports; "
             "non-trivial = a send attempted while the CA is not operational after having lost its address; "
             "distinct = distinct histories")
     ASSUMPTIONS = [
@@ -142,6 +154,7 @@ class C13:
             w.bus.taps.append(tap)
             started = [False]
             lost = [False]
+            losses = []          # (instant by which the contending claim had been delivered, address lost)
             lost_fixed = [False]
             announced = [p["addr"] if p["bypass"] else None]
 
@@ -176,6 +189,10 @@ class C13:
                         continue
                     was_normal = ca.state == State.NORMAL
                     was_waiting = ca.state == State.WAIT_VETO
+                    # (whatever the CA reports about itself: once its claim for the address is on the bus, a later claim with a
+                    # lower NAME takes the address from it)
+                    on_bus = [e.can_id & 0xFF for e in w.bus.log if e.node == "S" and ((e.can_id >> 16) & 0xFF) == 0xEE]
+                    was_announced = bool(on_bus) and on_bus[-1] == cur
                     cname = (name_val - 0x100) if op["lower"] else (name_val + 0x100)
                     cname &= (1 << 64) - 1
                     if op["lower"] and cname > name_val:
@@ -189,8 +206,9 @@ class C13:
                             labels.append("loss-at-timer-tick")
                     raw.send(R.mk_id(6, 0, 0xEE, 255, cur), R.name_bytes(cname))
                     w.run_for(max(p["lat"]) + 0.001)          # until the contending claim has been delivered
-                    if op["lower"] and (was_normal or was_waiting):
+                    if op["lower"] and (was_normal or was_waiting or was_announced):
                         lost[0] = True
+                        losses.append((w.sim.now, cur))
                         if not p["aac"]:
                             lost_fixed[0] = True
                         if ca.state == State.NORMAL and ca.device_address == cur:
@@ -296,6 +314,16 @@ class C13:
                         and e.t < first_claim[0][0] + 0.25 - 1e-9:
                     V("frame-inside-veto-window", "application frame id 0x%08X was sent %.4f s after the CA's initial claim for address %d "
                       "appeared on the bus (the veto window is 250 ms)" % (e.can_id, e.t - first_claim[0][0], sa))
+                    break
+                # reference, independent of what the CA reports: an address lost to a lower NAME is not used again unless the CA
+                # has claimed it again on the bus since (frames already waiting in the transmit path excepted)
+                hit = [tl for (tl, a) in losses if a == sa and e.t > tl + (max(p["tx_pre"]) if isinstance(p.get("tx_pre"), list) else p.get("tx_pre", 0.0)) + 1e-6
+                       and not any(e2.ext and R.id_fields(e2.can_id)["pf"] == 0xEE and (e2.can_id & 0xFF) == sa and tl < e2.t < e.t and list(e2.data) == nb
+                                   for (e2, _, _) in snap)]
+                if hit:
+                    V("frame-from-lost-address", "application frame id 0x%08X was sent from address %d at t=%.4f; a claim with a lower NAME for "
+                      "that address had been delivered to the CA by t=%.4f (after the CA's own claim was on the bus) and the CA has not "
+                      "claimed it again since" % (e.can_id, sa, e.t - 1000, hit[0] - 1000))
                     break
                 if st_ != State.NORMAL or sa != adr:
                     V("trace-frame-without-address", "frame id 0x%08X (data %s) was put on the bus at t=%.4f while the CA was in state "
